@@ -10,6 +10,7 @@ from props import amg_block as ab
 DRIVERS = ac.DRIVERS + ab.DRIVERS
 MODEL = "amg"
 MODEL_BLOCK = "amgb"     # second model driver (coq/Extract_amgb.v, ocaml/amgb): built by run()
+RMERGE_ENV = {"OMP_NUM_THREADS": "17"}
 ASSUMPTIONS = [
     "transfer operators P, R are taken from the implementation's own hierarchy dump (their correctness is property C04); everything downstream (row sorting, Galerkin products, over-interpolation scaling, level rules, rebuild) is recomputed by the model",
     "the direct coarse solver is modelled by an exact dense solve (skyline LU itself is property C16)",
@@ -125,7 +126,19 @@ def run_block(ctx, cases_override=None):
     except Exception as e:
         return [dict(kind="broken-model-build", case=None, has_input=False, impl=None, model=None, op="amgbm", size=0,
                      theorem="Extract_amgb.v / OCaml driver of the amgb group does not build: " + str(e)[-1500:])]
-    return ab.run_cases(ctx, cases, model_exe)
+    try:
+        fails = ab.run_cases(ctx, cases, model_exe)
+        # both SpGEMM algorithms: with more than 16 OpenMP threads product() switches from spgemm_saad to
+        # spgemm_rmerge; the hierarchy (exact arithmetic, rows sorted by amg) must not change
+        # (a subset of the cases; all of them in a replay)
+        k = len(cases) if cases_override else (24 if ctx["tier"] == "quick" else 96)
+        for f in ab.run_cases(ctx, cases[:k], model_exe, env=RMERGE_ENV):
+            f["theorem"] = "[OMP_NUM_THREADS=17: spgemm_rmerge] " + f["theorem"]; f["env"] = RMERGE_ENV; fails.append(f)
+        return fails
+    except Exception:
+        import traceback
+        return [dict(kind="counterexample", case=None, has_input=False, impl=None, model=None, op="amgb", size=0,
+                     theorem="block stage of the C03 check failed to evaluate: " + traceback.format_exc()[-1500:])]
 
 def full_policy_tokens(c):
     """the coarsening policy of Coarsen.coarsen_step for an amg_common.Case (block_size 1, no null space)"""
@@ -182,6 +195,11 @@ def run(ctx, cases_override=None):
     fails = bfails + fails
     try:
         fails += run_full(ctx, cases, impl, block_model(ctx))
+        k = len(cases) if cases_override else (24 if ctx["tier"] == "quick" else 96)
+        f2, impl2, _, _ = ac.run_cases(ctx, cases[:k], env=RMERGE_ENV)
+        f2 += run_full(ctx, cases[:k], impl2, block_model(ctx))
+        for f in f2:
+            f["theorem"] = "[OMP_NUM_THREADS=17: spgemm_rmerge] " + f["theorem"]; f["env"] = RMERGE_ENV; fails.append(f)
     except Exception as e:
         import traceback
         fails.append(dict(kind="broken-model-build", case=None, has_input=False, impl=None, model=None, op="amgfull", size=0,
